@@ -1455,6 +1455,16 @@ class BaseInterpreter(Generic[TContext, TEvent]):
             for actor_id, actor in self._actors.items()
             if spec in actor_id.split(":")[1:]
         ]
+        # 🗺️ Actors spawned under an explicit id do not carry the service key
+        #    in their id; they are found through the key recorded at spawn
+        #    time. Both kinds count towards ambiguity: picking the first
+        #    source match (or preferring the generated-id one) silently
+        #    addressed an arbitrary child of several from the same service.
+        for actor_id, source_key in self._actor_sources.items():
+            if source_key == spec and actor_id in self._actors:
+                candidate = self._actors[actor_id]
+                if not any(candidate is m for m in matches):
+                    matches.append(candidate)
         if len(matches) == 1:
             return matches[0]
         if len(matches) > 1:
@@ -1465,10 +1475,6 @@ class BaseInterpreter(Generic[TContext, TEvent]):
                 len(matches),
             )
             return None
-        # 🗺️ Fall back to the originating service key recorded at spawn time.
-        for actor_id, source_key in self._actor_sources.items():
-            if source_key == spec and actor_id in self._actors:
-                return self._actors[actor_id]
         if spec in ("parent", "#parent") and self.parent is not None:
             return self.parent
         return None
